@@ -14,6 +14,9 @@ import Gv.Proofs.ClustalNoHang
 import Gv.Proofs.PhylipNoHang
 import Gv.Proofs.ClustalPos
 import Gv.Proofs.PartitionOutcome
+import Gv.Proofs.PhylipHeader
+import Gv.Proofs.NexusHeader
+import Gv.Proofs.PhylipMulti
 /-!
 C03 — parsers terminate on every input with an error or a well-formed result.
 
@@ -583,5 +586,289 @@ theorem clustal_outcome_fixed (o : POpts) (bs : List Byte) : Good (Clustal.parse
   | exit => trivial
   | panic => rw [hp] at h1; exact h1
   | hang => rw [hp] at h1; exact h1
+
+/-! ## Phylip: a success agrees with the counts of the header line; the end-of-stream marker needs a blank input -/
+
+/-- **Phylip, counts as the parser read them** (strict and relaxed, every option, with or without the allocation
+repair, ALL byte strings): a successful parse went through a header line `nbseq lenseq`, and the alignment handed back
+has exactly `lenseq` columns and `nbseq` rows — at most `nbseq` rows under the two duplicate policies that drop rows
+(IGNORE_NAME / IGNORE_SEQUENCE); under IGNORE_NONE duplicate names are renamed, never dropped: the `_%04d` search
+always finds a free name (pigeonhole over `|rows| + 1` pairwise distinct candidates). -/
+theorem phylip_counts_as_read (af : Bool) (o : POpts) (bs : List Byte) (a : Aln)
+    (h : Phylip.parse af o bs = .ok (some a)) :
+    ∃ n l sh, Phylip.header af { inp := bs } = .ok (.counts n l, sh) ∧
+      a.length = l ∧ (a.rows.length : Int) ≤ n ∧ (normIgnore o.ignore = 0 → (a.rows.length : Int) = n) := by
+  unfold Phylip.parse at h
+  cases hp : Phylip.parseOne af o { inp := bs } with
+  | error e => rw [hp] at h; cases e <;> simp [Phylip.toOutcome] at h
+  | ok v =>
+    obtain ⟨r, s'⟩ := v
+    rw [hp] at h
+    cases r with
+    | aln a' =>
+      simp only [Phylip.toOutcome, Outcome.ok.injEq, Option.some.injEq] at h
+      subst h
+      exact Gv.Proofs.PhylipHeader.parseOne_counts af o _ s' a' hp
+    | eos => simp [Phylip.toOutcome] at h
+    | slow => simp [Phylip.toOutcome] at h
+
+/-- **Phylip, consistency with the declared counts**: whenever the deliberately naive header scanner of
+`Spec/Fmt.lean` (first two decimal numbers of the file, independent of any lexer) finds counts `(dn, dl)` in the raw
+bytes, a successful parse has `dl` columns and `dn` rows (at most `dn` under a duplicate policy that drops rows).
+This is the `contradicts-header-nbseq` / `contradicts-header-length` clause of the oracle predicate, proved for the
+model over ALL byte strings and options. -/
+theorem phylip_header_consistent (af : Bool) (o : POpts) (bs : List Byte) :
+    match Phylip.parse af o bs with
+    | .ok (some a) =>
+      match Spec.Fmt.declaredPhylip bs with
+      | some (dn, dl) => Spec.Fmt.rowsOk (normIgnore o.ignore != 0) (a.rows.length : Int) dn = true ∧ a.length = dl
+      | none => True
+    | _ => True := by
+  unfold Phylip.parse
+  cases hp : Phylip.parseOne af o { inp := bs } with
+  | error e => cases e <;> simp [Phylip.toOutcome]
+  | ok v =>
+    obtain ⟨r, s'⟩ := v
+    cases r with
+    | aln a => simp only [Phylip.toOutcome]; exact Gv.Proofs.PhylipHeader.parseOne_declared af o bs s' a hp
+    | eos => simp [Phylip.toOutcome]
+    | slow => simp [Phylip.toOutcome]
+
+/-- **Phylip, end-of-stream marker**: `(nil, nil)` is returned only for an input that holds nothing but blanks up to
+its first NUL (NUL is the lexers' in-band end-of-input marker: an input without NUL must be blank up to EOF) -/
+theorem phylip_eos_blank (af : Bool) (o : POpts) (bs : List Byte) (h : Phylip.parse af o bs = .ok none) :
+    Spec.Fmt.blankToNul bs = true := by
+  unfold Phylip.parse at h
+  cases hp : Phylip.parseOne af o { inp := bs } with
+  | error e => rw [hp] at h; cases e <;> simp [Phylip.toOutcome] at h
+  | ok v =>
+    obtain ⟨r, s'⟩ := v
+    rw [hp] at h
+    cases r with
+    | aln a' => simp [Phylip.toOutcome] at h
+    | eos => exact Gv.Proofs.PhylipHeader.parseOne_eos_blank af o bs s' hp
+    | slow => simp [Phylip.toOutcome] at h
+
+/-- an input without NUL: blank up to EOF -/
+theorem phylip_eos_blank_to_eof (af : Bool) (o : POpts) (bs : List Byte) (h0 : ∀ b ∈ bs, b ≠ 0)
+    (h : Phylip.parse af o bs = .ok none) : bs.all Spec.Fmt.isBlank = true := by
+  have := phylip_eos_blank af o bs h
+  unfold Spec.Fmt.blankToNul at this
+  have ht : ∀ l : List Byte, (∀ b ∈ l, b ≠ 0) → l.takeWhile (· != 0) = l := by
+    intro l
+    induction l with
+    | nil => intro _; rfl
+    | cons x t ih =>
+      intro hl
+      have hx : (x != 0) = true := by simpa using hl x (by simp)
+      rw [List.takeWhile_cons, if_pos hx, ih (fun b hb => hl b (by simp [hb]))]
+  rw [ht bs h0] at this
+  exact this
+
+/-- every alignment that `ParseMultiple` hands on went through a header line of its own and has the declared number
+of columns and (at most / exactly) the declared number of rows -/
+theorem phylip_multi_counts (af : Bool) (o : POpts) : ∀ (fuel : Nat) (s : Phylip.St) (acc : List Aln),
+    (∀ a ∈ acc, ∃ s0 n l sh, Phylip.header af s0 = .ok (.counts n l, sh) ∧ a.length = l ∧ (a.rows.length : Int) ≤ n ∧
+      (normIgnore o.ignore = 0 → (a.rows.length : Int) = n)) →
+    match Phylip.parseMulti af o fuel s acc with
+    | .done als _ => ∀ a ∈ als, ∃ s0 n l sh, Phylip.header af s0 = .ok (.counts n l, sh) ∧ a.length = l ∧
+        (a.rows.length : Int) ≤ n ∧ (normIgnore o.ignore = 0 → (a.rows.length : Int) = n)
+    | _ => True := by
+  intro fuel
+  induction fuel with
+  | zero => intro s acc _; simp [Phylip.parseMulti]
+  | succ f ih =>
+    intro s acc hacc
+    unfold Phylip.parseMulti
+    cases h : Phylip.parseOne af o s with
+    | error e => cases e <;> first | exact hacc | trivial
+    | ok v =>
+      obtain ⟨r, s'⟩ := v
+      cases r with
+      | aln a =>
+        simp only
+        apply ih
+        intro x hx
+        simp only [List.mem_append, List.mem_singleton] at hx
+        cases hx with
+        | inl hx => exact hacc x hx
+        | inr hx =>
+          subst hx
+          obtain ⟨n, l, sh, hh⟩ := Gv.Proofs.PhylipHeader.parseOne_counts af o s s' x h
+          exact ⟨s, n, l, sh, hh⟩
+      | eos => exact hacc
+      | slow => trivial
+
+/-- **Phylip with the repairs of commit 74f5867, the complete C03 statement** over all ASCII byte strings and options:
+an explicit error, an exit with a message (lone `\r`), the end-of-stream marker (then the input is blank up to its
+first NUL), or an alignment that is well formed AND agrees with the counts declared in the header line; never a
+panic, never a hang. -/
+theorem phylip_outcome_full (o : POpts) (bs : List Byte) :
+    match Phylip.parse false o bs with
+    | .ok (some a) =>
+      Spec.Fmt.wellFormed a.length a.rows = true ∧
+      (match Spec.Fmt.declaredPhylip bs with
+       | some (dn, dl) => Spec.Fmt.rowsOk (normIgnore o.ignore != 0) (a.rows.length : Int) dn = true ∧ a.length = dl
+       | none => True)
+    | .ok none => Spec.Fmt.blankToNul bs = true
+    | .error | .exit => True
+    | .panic | .hang => False := by
+  have h1 := phylip_outcome_fixed o bs
+  have h2 := phylip_header_consistent false o bs
+  have h3 := phylip_eos_blank false o bs
+  cases hp : Phylip.parse false o bs with
+  | ok r =>
+    cases r with
+    | some a => rw [hp] at h1 h2; exact ⟨h1, h2⟩
+    | none => exact h3 hp
+  | error => trivial
+  | exit => trivial
+  | panic => rw [hp] at h1; exact h1
+  | hang => rw [hp] at h1; exact h1
+
+/-- non-vacuity: ` 2 3\na ACG\na A-T\n` (duplicate name, IGNORE_NONE: renamed, two rows as declared; IGNORE_NAME: one row) -/
+example : Phylip.parse false {} [32, 50, 32, 51, 10, 97, 32, 65, 67, 71, 10, 97, 32, 65, 45, 84, 10] =
+    .ok (some ⟨1, 3, [([97], [65, 67, 71]), ([97, 95, 48, 48, 48, 49], [65, 45, 84])]⟩) := by decide
+example : Phylip.parse false { ignore := 1 } [32, 50, 32, 51, 10, 97, 32, 65, 67, 71, 10, 97, 32, 65, 45, 84, 10] =
+    .ok (some ⟨1, 3, [([97], [65, 67, 71])]⟩) := by decide
+example : Spec.Fmt.declaredPhylip [32, 50, 32, 51, 10, 97, 32, 65, 67, 71, 10, 97, 32, 65, 45, 84, 10] = some (2, 3) := by decide
+/-- blanks, then NUL, then anything: the end-of-stream marker; ` \n x`: an error, not the marker -/
+example : Phylip.parse false {} [32, 10, 0, 65] = .ok none ∧ Spec.Fmt.blankToNul [32, 10, 0, 65] = true := by decide
+example : Phylip.parse false {} [32, 10, 32, 120] = .error := by decide
+
+/-- **`ParseMultiple` on a whole input terminates** (with the repairs of commit 74f5867; every option, ALL byte
+strings): the stream loop — fuel `|input| + 2`, as the oracle runs it — ends with the list of alignments handed on
+(each well formed, `ok` = no error met) or with the exit of a lone `\r`; it never runs out of fuel (every `Parse`
+that returns an alignment consumes at least two bytes: measure = remaining bytes + 1 for a pushed-back token), never
+panics, never enters the machine-dependent allocation band. -/
+theorem phylip_multi_outcome (o : POpts) (bs : List Byte) :
+    match Phylip.parseMulti false o (bs.length + 2) { inp := bs } [] with
+    | .done als _ => ∀ a ∈ als, Spec.Fmt.wellFormed a.length a.rows = true
+    | .slow => False
+    | .stop st => st = .exit := by
+  have h1 := phylip_multi_wellformed false o (bs.length + 2) { inp := bs } [] (by simp)
+  have h2 := Gv.Proofs.PhylipMulti.parseMulti_nh false o (bs.length + 2) { inp := bs } []
+    (by have := Gv.Proofs.PhylipNoHang.ν_le ({ inp := bs } : Phylip.St); simp [Gv.Proofs.PhylipNoHang.ν])
+  have h3 := Gv.Proofs.PhylipMulti.parseMulti_np o (bs.length + 2) { inp := bs } []
+  cases hp : Phylip.parseMulti false o (bs.length + 2) { inp := bs } [] with
+  | done als ok => rw [hp] at h1; exact h1
+  | slow => exact absurd hp h3.2
+  | stop st =>
+    cases st with
+    | exit => rfl
+    | hang => exact absurd hp h2
+    | panic => exact absurd hp h3.1
+    | error =>
+      -- an explicit error ends the loop with `done … false`, never with `stop error`
+      exfalso
+      have : ∀ (fuel : Nat) (s : Phylip.St) (acc : List Aln), Phylip.parseMulti false o fuel s acc ≠ .stop .error := by
+        intro fuel
+        induction fuel with
+        | zero => intro s acc; simp [Phylip.parseMulti]
+        | succ k ih =>
+          intro s acc
+          unfold Phylip.parseMulti
+          cases h : Phylip.parseOne false o s with
+          | error e => cases e <;> simp
+          | ok v =>
+            obtain ⟨r, s'⟩ := v
+            cases r with
+            | aln a => simp only; exact ih s' _
+            | eos => simp
+            | slow => simp
+      exact this _ _ _ hp
+
+/-- non-vacuity: two alignments in one stream -/
+example : (match Phylip.parseMulti false {} 21 { inp := [32, 49, 32, 50, 10, 97, 32, 65, 67, 10, 32, 49, 32, 49, 10, 98, 32, 71, 10] } [] with
+    | .done als ok => (als.map (·.rows), ok)
+    | _ => ([], false)) = ([[([97], [65, 67])], [([98], [71])]], true) := by decide
+
+/-! ## Nexus: a success agrees with the counts of the DIMENSIONS commands and with the TAXA block -/
+
+/-- **Nexus, counts as the parser read them** (every combination of the repairs, ALL byte strings and options): a
+successful parse went through the top-level loop with a DATA / CHARACTERS block `d`, and
+* when `ntax` was declared (≠ −1, the "not declared" value) the matrix holds exactly `ntax` distinct names, and the
+  alignment has that many rows — at most that many under a duplicate policy that drops rows;
+* when `nchar` was declared the alignment has exactly `nchar` columns;
+* with a TAXA block there is one row per label, and the `ntax` of that block (if declared) is the number of labels. -/
+theorem nexus_counts_as_read (f : Nexus.Facts) (o : POpts) (bs : List Byte) (a : Aln)
+    (h : Nexus.parse f o bs = .ok a) :
+    ∃ top d, Nexus.topLoop f ((Nexus.sIW bs).2.length + 3) (Nexus.sIW bs).2 {} = .ok top ∧ top.data = some d ∧
+      (d.ntax ≠ -1 → Spec.Fmt.rowsOk (normIgnore o.ignore != 0) (a.rows.length : Int) d.ntax = true) ∧
+      (d.nchar ≠ -1 → a.length = d.nchar) ∧
+      (∀ ls, top.taxlabels = some ls →
+        a.rows.length = ls.length ∧ (top.taxantax = -1 ∨ top.taxantax = (ls.length : Int))) := by
+  obtain ⟨top, _, htop, hb⟩ := Gv.Proofs.NexusHeader.parse_inv f o bs a h
+  obtain ⟨d, hag⟩ := Gv.Proofs.NexusHeader.build_agrees f o top a hb
+  refine ⟨top, d, htop, hag.data, ?_, hag.nchar, hag.taxa⟩
+  intro hn
+  have hm := hag.matrix_ntax hn
+  unfold Spec.Fmt.rowsOk
+  by_cases hi : normIgnore o.ignore = 0
+  · have := hag.rows_eq hi
+    simp [hi]; omega
+  · have hi' : (normIgnore o.ignore != 0) = true := by simpa using hi
+    have := hag.rows_le
+    simp [hi']; omega
+
+/-- **Nexus, consistency with the counts a naive scanner declares — partial**: MISSING is the agreement of the two
+readings of the header, i.e. that the `ntax` / `nchar` the parser's DIMENSIONS loop ends with are the ones the
+independent scanner `Spec.Fmt.declaredNexus` (comments stripped, commands split at `;`, `key = value` inside the
+DATA / CHARACTERS block) reads off the raw bytes, and are not the "undeclared" value −1 (hypothesis `hread`; it is
+checked on the implementation's results by the oracle predicate on every run, not proved: the parser tokenises, the
+scanner works on text).  Given it, the oracle's `contradicts-header-ntax` / `-nchar` clauses hold for every success. -/
+theorem nexus_header_consistent_partial (f : Nexus.Facts) (o : POpts) (bs : List Byte) (a : Aln)
+    (h : Nexus.parse f o bs = .ok a)
+    (hread : ∀ top d, Nexus.topLoop f ((Nexus.sIW bs).2.length + 3) (Nexus.sIW bs).2 {} = .ok top → top.data = some d →
+      (∀ dn, (Spec.Fmt.declaredNexus bs).1 = some dn → d.ntax = dn ∧ dn ≠ -1) ∧
+      (∀ dl, (Spec.Fmt.declaredNexus bs).2 = some dl → d.nchar = dl ∧ dl ≠ -1)) :
+    (match (Spec.Fmt.declaredNexus bs).1 with
+     | some dn => Spec.Fmt.rowsOk (normIgnore o.ignore != 0) (a.rows.length : Int) dn = true
+     | none => True) ∧
+    (match (Spec.Fmt.declaredNexus bs).2 with
+     | some dl => a.length = dl
+     | none => True) := by
+  obtain ⟨top, d, htop, hd, h1, h2, _⟩ := nexus_counts_as_read f o bs a h
+  obtain ⟨r1, r2⟩ := hread top d htop hd
+  constructor
+  · cases hdn : (Spec.Fmt.declaredNexus bs).1 with
+    | none => trivial
+    | some dn =>
+      obtain ⟨e, hne⟩ := r1 dn hdn
+      simp only
+      rw [← e]
+      exact h1 (by rw [e]; exact hne)
+  · cases hdl : (Spec.Fmt.declaredNexus bs).2 with
+    | none => trivial
+    | some dl =>
+      obtain ⟨e, hne⟩ := r2 dl hdl
+      simp only
+      rw [← e]
+      exact h2 (by rw [e]; exact hne)
+
+/-- `#NEXUS begin data; dimensions ntax=9; endblock; begin trees; dimensions ntax=1; matrix a AC ; end;` -/
+def nexusEndblockSample : List Byte := [35, 78, 69, 88, 85, 83, 10, 98, 101, 103, 105, 110, 32, 100, 97, 116, 97, 59, 10, 100, 105, 109, 101, 110, 115, 105, 111, 110, 115, 32, 110, 116, 97, 120, 61, 57, 59, 10, 101, 110, 100, 98, 108, 111, 99, 107, 59, 10, 98, 101, 103, 105, 110, 32, 116, 114, 101, 101, 115, 59, 10, 100, 105, 109, 101, 110, 115, 105, 111, 110, 115, 32, 110, 116, 97, 120, 61, 49, 59, 10, 109, 97, 116, 114, 105, 120, 10, 97, 32, 65, 67, 10, 59, 10, 101, 110, 100, 59, 10]
+
+set_option maxRecDepth 100000 in
+/-- **the reading hypothesis of `nexus_header_consistent_partial` is not a theorem**: the parser does not know
+`ENDBLOCK` (the standard synonym of `END`): it skips it as an unsupported command, stays in the DATA block, skips
+`begin trees;` likewise and lets the second `dimensions` overwrite `ntax`.  The parse succeeds with ONE row although
+the DATA block — as the naive scanner, which closes the block at `endblock`, reads it — declares `ntax=9`.
+Reproduce: `goalign reformat fasta --nexus -i <file>` (two "unsupported command" warnings, then `>a / AC`). -/
+theorem nexus_header_counterexample_endblock :
+    Nexus.parse ⟨true, true, true, true⟩ {} nexusEndblockSample = .ok ⟨1, 2, [([97], [65, 67])]⟩ ∧
+    Spec.Fmt.declaredNexus nexusEndblockSample = (some 9, none) := by decide
+
+/-- non-vacuity: `#NEXUS begin data; dimensions ntax=2 nchar=3; format datatype=dna; matrix a ACG / b A-T ; end;` -/
+def nexusSample : List Byte := [35, 78, 69, 88, 85, 83, 10, 98, 101, 103, 105, 110, 32, 100, 97, 116, 97, 59, 10, 100, 105, 109, 101, 110, 115, 105, 111, 110, 115, 32, 110, 116, 97, 120, 61, 50, 32, 110, 99, 104, 97, 114, 61, 51, 59, 10, 102, 111, 114, 109, 97, 116, 32, 100, 97, 116, 97, 116, 121, 112, 101, 61, 100, 110, 97, 59, 10, 109, 97, 116, 114, 105, 120, 10, 97, 32, 65, 67, 71, 10, 98, 32, 65, 45, 84, 10, 59, 10, 101, 110, 100, 59, 10]
+
+set_option maxRecDepth 100000 in
+example : Nexus.parse ⟨true, true, true, true⟩ {} nexusSample = .ok ⟨1, 3, [([97], [65, 67, 71]), ([98], [65, 45, 84])]⟩ ∧
+    Spec.Fmt.declaredNexus nexusSample = (some 2, some 3) := by decide
+-- the reading hypothesis of `nexus_header_consistent_partial` holds on it: the DIMENSIONS loop ends with (2, 3)
+set_option maxRecDepth 100000 in
+example : (match Nexus.topLoop ⟨true, true, true, true⟩ ((Nexus.sIW nexusSample).2.length + 3) (Nexus.sIW nexusSample).2 {} with
+    | .ok top => top.data.map fun d => (d.ntax, d.nchar)
+    | _ => none) = some (2, 3) := by decide
 
 end Gv.Props.C03
